@@ -410,6 +410,16 @@ func main() {
 						add(offset(x.Pos()), offset(x.End()),
 							fmt.Sprintf("__simrt.Lock((%s).%s, (%s).%s)", xsrc, try, xsrc, sel.Sel.Name))
 						sf.LockShims++
+					case recv == "Cond" && (sel.Sel.Name == "Wait" || sel.Sel.Name == "Signal" || sel.Sel.Name == "Broadcast") && len(x.Args) == 0:
+						xsrc := string(srcs[full][offset(sel.X.Pos()):offset(sel.X.End())])
+						arg := "(" + xsrc + ")"
+						if tv, ok := info.Types[sel.X]; ok {
+							if _, isPtr := tv.Type.Underlying().(*types.Pointer); !isPtr {
+								arg = "&(" + xsrc + ")"
+							}
+						}
+						add(offset(x.Pos()), offset(x.End()), "__simrt.Cond"+sel.Sel.Name+"("+arg+")")
+						sf.LockShims++
 					case recv == "Once" && sel.Sel.Name == "Do" && len(x.Args) == 1:
 						add(offset(x.Pos()), offset(x.Pos()), "__simrt.OnceDo(")
 						add(offset(sel.End()), offset(x.Lparen)+1, ", ")
